@@ -40,7 +40,7 @@ pub fn take_panic() -> Option<(String, String)> {
 
 /// Strip the repository prefix so that signatures are stable across checkouts.
 pub fn short_loc(loc: &str) -> String {
-    let l = loc.strip_prefix("/repo/").unwrap_or(loc);
+    let l = crate::core::strip_repo(loc);
     // drop the line number: fixes elsewhere in the file must not change a signature
     match l.rfind(':') {
         Some(i) => l[..i].to_string(),
